@@ -7,6 +7,8 @@
 package bfe_route
 
 import (
+	"path/filepath"
+	"runtime"
 	"sort"
 	"strings"
 )
@@ -72,4 +74,11 @@ func VerifC13Dump(s *ServerDataConf) string {
 	return "rp=" + verifSortedSet(rp) + ";hp=" + verifSortedSet(hp) + ";ht=" + verifSortedSet(ht) +
 		";tt=" + verifSortedSet(tt) + ";dp=" + dp + ";vp=" + verifSortedSet(vp) +
 		";ac=" + verifSortedSet(ac) + ";bc=" + verifSortedSet(bc) + ";cc=" + verifSortedSet(cc)
+}
+
+// VerifC13RepoRoot returns the root of the source tree this binary was built from (the harness loads the shipped
+// sample configurations of <root>/conf through the real loaders).
+func VerifC13RepoRoot() string {
+	_, f, _, _ := runtime.Caller(0)
+	return filepath.Dir(filepath.Dir(f))
 }
